@@ -703,3 +703,22 @@ Definition known07 (i : binput) (o : bobs) : nat := if ok_bus i o && negb (seq_o
 
 Definition check06 (c : binput * bobs) : bool * bool * nat := let '(i, o) := c in (agree i o, ok06 i o, 0).
 Definition check07 (c : binput * bobs) : bool * bool * nat := let '(i, o) := c in (agree i o, ok07 i o, known07 i o).
+
+(* ================= C03 (deadlock half) ================= *)
+(* a program thread that never finishes is excused only by the documented exception: it waits for the mutex of a
+   Sequential handler that the same goroutine is still running (a synchronous Sequential handler whose publish is
+   delivered back to itself, directly or through other handlers) *)
+Definition self_blocked (s : bstate) (a : actor) : bool :=
+  match assoc_get (code s) a with
+  | Some (ILock h :: _) => match assoc_get (seqlocks s) (r_id h) with Some b => Nat.eqb a b | None => false end
+  | _ => false
+  end.
+Definition ok03d (i : binput) (o : bobs) : bool :=
+  match bo_unfinished o with
+  | [] => true
+  | ts => match model_run i with
+          | Some r => forallb (self_blocked (rs_state r)) ts
+          | None => false
+          end
+  end.
+Definition check03d (c : binput * bobs) : bool * bool * nat := let '(i, o) := c in (agree i o, ok_bus i o && ok03d i o, 0).
